@@ -27,6 +27,7 @@ func c07(c *Ctx) {
 	c07Rotate(c)
 	c07Write(c)
 	c07WholeLineBatches(c)
+	c07NewFileAfterSplit(c)
 	c07DescriptorKept(c)
 }
 
